@@ -15,9 +15,12 @@
 //!
 //! Obligation names: `reference-encrypted-opens-in-lopdf`, `file-key`, `object-key`, `wrong-password-rejected`,
 //! `objstm-strings`, `encrypt-ok`, `dict-V-R-Length`, `P-word`, `dict-crypt-filters`, `O-value`, `U-value`, `perms`,
-//! `lopdf-encrypted-opens-in-reference`, `id-not-encrypted`, `no-panic`; an input-class suffix is appended for the
-//! variants that are a class of their own: `-identity` (StmF or StrF is the predefined /Identity filter), `-length-absent`
-//! / `-length-256` (top-level /Length toggled), `-direct-dict` (/Encrypt is a direct dictionary), `-identity-in-cf`.
+//! `lopdf-encrypted-opens-in-reference`, `id-not-encrypted`, `no-panic`.  The obligations about opening, object keys, crypt
+//! filter entries and object streams get an input-class suffix for the variants that are a class of their own: `-identity`
+//! (StmF or StrF is the predefined /Identity filter), `-length-absent` / `-length-256` (top-level /Length toggled),
+//! `-direct-dict` (/Encrypt is a direct dictionary), `-identity-in-cf`; O-value, U-value, P-word, perms, dict-V-R-Length,
+//! id-not-encrypted and (direction B) file-key never carry a suffix.  Detail texts start with a constant phrase of more than
+//! 48 characters, because Report::fail groups failures by that prefix.
 //!
 //! Debugging aids (never set by the driver): `C06_PERTURB=<name>` deliberately breaks the REFERENCE in one place (see
 //! `pt`) to demonstrate that the check is sensitive; the report is then labelled PERTURBED and not exhaustive.
@@ -813,12 +816,21 @@ fn cases(thorough: bool) -> Vec<Case> {
     let mk = |dir: char, h: &Handler, perm: u32, u: &str, o: &str, seed: u64, layout: u8, variant: Variant| Case {
         dir, r: h.r, bits: h.bits, stm: h.stm, strf: h.strf, em: h.em, perm, user: u.into(), owner: o.into(), seed, layout, variant };
     let three: [(&str, &str); 3] = [("user", "Owner-Pass"), ("", "Owner-Pass"), ("user", "")];
+    let seeds: &[u64] = if thorough { &[0, 1, 2, 3] } else { &[0, 1] };
     for h in handlers(thorough) {
         // the full product, both directions
         for dir in ['A', 'B'] {
-            for perm in PERM_SETS { for (u, o) in password_pairs(h.r) { for seed in [0u64, 1] { for layout in [0u8, 1] {
+            for perm in PERM_SETS { for (u, o) in password_pairs(h.r) { for &seed in seeds { for layout in [0u8, 1] {
                 out.push(mk(dir, &h, perm, &u, &o, seed, layout, Variant::Base));
             } } } }
+            // thorough: every combination of the eight access bits (3-6, 9-12), one password pair, one seed, cross-reference table
+            if thorough {
+                for k in 0u32..256 {
+                    let perm = ((k & 0x0F) << 2) | ((k >> 4) << 8);
+                    if PERM_SETS.contains(&perm) { continue; }
+                    out.push(mk(dir, &h, perm, "user", "Owner-Pass", 0, 0, Variant::Base));
+                }
+            }
         }
         // variants: all permissions, three password pairs, both seeds, cross-reference table
         let toggles = match h.r { 2 => false, 3 => h.bits == 40, _ => true };
@@ -838,18 +850,19 @@ DIRECTIONS: A = the reference handler of this module (own MD5/SHA-2/AES/RC4, own
 B = lopdf EncryptionState::try_from + Document::encrypt + save_to produces, the reference reads the encryption dictionary, authenticates and decrypts. \
 HANDLERS: R2 (V1, RC4 40); R3 (V2, RC4) with key length 40,48,..,128 (quick tier: 40,56,64,128); R4 (V4, 128 bit) with StmF x StrF over {RC4 (/V2), AESV2, the predefined /Identity} x EncryptMetadata {true,false}; \
 R5 and R6 (V5, AESV3, 256 bit) x EncryptMetadata {true,false}. \
-PERMISSIONS: 3 conforming words (bits 1-2 zero, 7-8 and 13-32 one): all access bits (-4), none (-3904), print+copy+fill (-3628). \
+PERMISSIONS: 3 conforming words (bits 1-2 zero, 7-8 and 13-32 one): all access bits (-4), none (-3904), print+copy+fill (-3628); \
+thorough tier additionally: all 256 combinations of the access bits 3-6 and 9-12, each handler, both directions, with the pair (user, Owner-Pass), seed 0, cross-reference table. \
 PASSWORDS: users {empty, 'user', non-ASCII (R2-4: a-umlaut, Euro, Lslash, zcaron, bullet = PDFDocEncoding E4 A0 95 9E 80; R5/6: e-acute, lambda, a CJK character, UTF-8), boundary length (R2-4: exactly 32 bytes; R5/6: exactly 127 bytes), \
 over the boundary (R2-4: 40 bytes; R5/6: 130 bytes with a two-byte character split by the cut at 127)} x owners {empty (R2-4: Algorithm 3 then uses the user password), different (non-ASCII for user 'user'), equal to the user password}, \
 plus (R2-4) owner of 40 bytes and a pair equal in the first 32 bytes only, (R5/6) a pair equal in the first 127 bytes only: 16 pairs for R2-4, 15 for R5/6. R5/6 passwords are restricted to strings on which SASLprep is the identity. \
-SEEDS: 2 (file identifier of 16 / 21 bytes, R5/6 file key, and in A all salts, IVs, U padding; in B lopdf draws its own salts and IVs). \
+SEEDS: 2 (thorough tier: 4) (file identifier of 16 / 21 bytes, R5/6 file key, and in A all salts, IVs, U padding; in B lopdf draws its own salts and IVs). \
 LAYOUTS: cross-reference table; cross-reference stream (in A additionally two objects with strings inside an encrypted object stream). \
 DOCUMENT (fixed): strings of 0,1,5,15,16,17,20,32,33 bytes (literal and hexadecimal, binary) directly, in arrays and dictionaries to depth 3 and in a stream dictionary; streams of 0,1,16,17,40,100 (binary) bytes; a Metadata stream; \
 (R>=4) a stream with /Filter /Crypt /Name /Identity; ids 1..16 with generations 0,1,2, and 11 gen 300, 300 gen 0, 66051 gen 258, 70000 gen 0, 16909060 gen 5. \
 FULL PRODUCT in both directions: handlers x permissions x pairs x seeds x layouts. \
 VARIANTS (permission word -4, pairs {(user,Owner-Pass),('',Owner-Pass),(user,'')}, 2 seeds, table): A with the top-level /Length toggled (R3/40 and R4: absent; R5/R6: /Length 256 present; base is /Length present for R3/R4, absent for R2/R5/R6), \
 A with /Encrypt as a direct dictionary in the trailer (one handler per revision), B with Identity requested through a CF entry holding lopdf's IdentityCryptFilter (R4 handlers that use Identity; base requests the name /Identity without CF entry). \
-EACH A CASE: user password, owner password (effective: the user password if there is none), a wrong password and (if neither password is empty) the empty password; lopdf's file key is compared with the reference's. \
+EACH A CASE: user password, owner password (effective: the user password if there is none), a wrong password, the user password with one character appended (if shorter than the significant length) and (if neither password is empty) the empty password; lopdf's file key is compared with the reference's. \
 EACH B CASE: V, R, Length, P, CF/StmF/StrF/CFM/AuthEvent, EncryptMetadata, O and U recomputed (R2-4) or validated with UE/OE/Perms (R5/6), file key, every string and stream decrypted by the reference, /ID untouched. \
 NOT COVERED: passwords that SASLprep changes; non-conforming P words; R4 crypt filters with keys shorter than 128 bits; V5 with Identity or mixed filters; public-key handlers; /EFF; array-form DecodeParms of /Crypt; \
 object streams in direction B (lopdf's writer produces none)";
@@ -1205,8 +1218,11 @@ fn run_a(c: &Case) -> Fails {
                 }
             }
         }
+        let near = format!("{}x", c.user);
         let mut wrong: Vec<&str> = vec!["Wrong#1"];
         if !expected_auto { wrong.push(""); }
+        // the user password with one more character, where that character lies inside the significant length
+        if upw.len() < (if c.r <= 4 { 32 } else { 127 }) && prep_password(c.r, &near).map(|b| b != eff_owner).unwrap_or(false) { wrong.push(&near); }
         for w in wrong {
             let mut d = enc.clone();
             match lib(|| d.decrypt(w)) {
